@@ -156,7 +156,7 @@ def units():
                          ('insert__rE', ['C03', 'C02', 'C09', 'C12', 'C19']), ('insert__rrE', ['C03', 'C02', 'C09', 'C12', 'C19']),
                          ('insert__pE_rE', ['C03', 'C02', 'C09', 'C12', 'C19']), ('insert__pE_rrE', ['C03', 'C02', 'C09', 'C12', 'C19']),
                          ('erase__rE', ['C03', 'C02', 'C09', 'C19']), ('size__v_c', ['C03', 'C20']), ('empty__v_c', ['C03', 'C20']),
-                         ('begin__v_c', ['C03', 'C20']), ('end__v_c', ['C03', 'C20']), ('clear__v', ['C03', 'C02'])]:
+                         ('begin__v_c', ['C03', 'C20']), ('end__v_c', ['C03', 'C20']), ('clear__v', ['C03', 'C02']), ('extract__rE', ['C03', 'C02', 'C19'])]:
             add('fs.%s.NR.%s' % (m.replace('__', '_'), fsz), FS + '__' + m, props, 2, 'StdVectorBase_E_A_' + fsz, fsz, 'ElemNR', tier=tier,
                 throws_reachable=m.startswith('insert'), timeout=(600 if fsz == 'u8' else 2400))
             us[-1]['cfg'] = 'sets17'
